@@ -2,6 +2,7 @@ package sx
 
 import (
 	"fmt"
+	"strconv"
 	"go/token"
 	"go/types"
 	"os"
@@ -25,6 +26,7 @@ type Config struct {
 	MaxPermute     int
 	MaxBigBytes    int
 	Thorough       bool
+	NoBigMulSplit  bool
 	Workers        int
 	SolverTimeoutMs int
 	Solver         string
@@ -32,6 +34,7 @@ type Config struct {
 	Concrete       map[string]string // concolic mode: nondet name -> value
 	LogDir         string
 	StopAtFirstViolation bool
+	IsKnown func(v Violation) bool
 }
 
 func DefaultConfig() Config {
@@ -124,6 +127,7 @@ type Path struct {
 	mutexes map[*Obj]int
 	assumes []string
 	ndNames map[string]int
+	knownTrue map[string]bool
 	inInit  bool
 	lastPanic string
 	locks   map[string]int
@@ -169,6 +173,7 @@ func (p *Path) assertPC(t *Term) {
 		return
 	}
 	p.pc = append(p.pc, t)
+	p.knownTrue[t.s] = true
 	if p.S != nil {
 		p.S.Send("(assert " + t.s + ")")
 	}
@@ -181,6 +186,12 @@ func (p *Path) forkBool(c *Term, fr *frame, pos token.Pos) bool {
 	}
 	if p.S == nil {
 		panic("engine: symbolic condition in concrete mode: " + c.s)
+	}
+	if p.knownTrue[c.s] {
+		return true
+	}
+	if p.knownTrue[p.tb.Not(c).s] {
+		return false
 	}
 	di := len(p.decisions)
 	if di < len(p.prefix) {
@@ -256,6 +267,51 @@ func (p *Path) choose(n int, what string) int {
 	p.res.Forks += n - 1
 	p.decisions = append(p.decisions, 0)
 	return 0
+}
+
+// concretize returns a concrete value of t (an int-typed bit-vector), forking over the
+// feasible values; candidates come from solver models so each value costs O(1) queries.
+func (p *Path) concretize(t *Term, signed bool, fr *frame, pos token.Pos) int64 {
+	if t.c {
+		if signed {
+			return sext64(t.u, t.S.W)
+		}
+		return int64(t.u)
+	}
+	for {
+		var v int64
+		di := len(p.decisions)
+		if di < len(p.prefix) {
+			v = int64(p.prefix[di] >> 2)
+			p.decisions = append(p.decisions, p.prefix[di])
+		} else {
+			if di >= p.E.Cfg.MaxDecisions {
+				p.abort("inconclusive", fmt.Sprintf("decision depth %d exceeded while concretizing at %s", p.E.Cfg.MaxDecisions, p.where(fr, pos)))
+			}
+			r := p.S.Check()
+			if r == Unsat {
+				p.abort("infeasible", "no value left while concretizing")
+			}
+			if r == Unknown {
+				p.abort("inconclusive", "solver unknown while concretizing at "+p.where(fr, pos))
+			}
+			vals := p.S.GetValues([]string{t.s})
+			ms := parseModelValue(vals[t.s], t.S)
+			u, err := strconv.ParseUint(ms, 10, 64)
+			if err != nil {
+				p.abort("inconclusive", "cannot read model value "+vals[t.s])
+			}
+			if signed {
+				v = sext64(u, t.S.W)
+			} else {
+				v = int64(u)
+			}
+			p.decisions = append(p.decisions, int(v)<<2)
+		}
+		if p.forkBool(p.tb.Eq(t, BVConst(uint64(v), t.S.W)), fr, pos) {
+			return v
+		}
+	}
 }
 
 func (p *Path) model() map[string]string {
@@ -471,7 +527,7 @@ func (e *Engine) newPath(s *Solver, prefix []int) *Path {
 	p := &Path{E: e, S: s, prefix: prefix, names: map[string]int{}, funcs: map[string]bool{}, stubs: map[string]bool{},
 		notes: map[string]bool{}, covers: map[string]bool{}, obs: map[string]string{}, views: map[string]*Obj{}, viewOf: map[*Obj]PtrV{},
 		inOverride: map[*ssa.Function]bool{}, choices: map[string]int{}, ufs: map[string][]ufApp{}, declared: map[string]bool{},
-		mutexes: map[*Obj]int{}, ndNames: map[string]int{}, locks: map[string]int{}, flags: map[string]bool{},
+		mutexes: map[*Obj]int{}, ndNames: map[string]int{}, knownTrue: map[string]bool{}, locks: map[string]int{}, flags: map[string]bool{},
 		syncMaps: map[string]*MapV{}, atomVals: map[string]Value{}}
 	p.tb = &TB{}
 	if s != nil {
@@ -599,6 +655,22 @@ func (e *Engine) Explore(id string, h *ssa.Function) *ObligationResult {
 		nw = 1
 	}
 	var wg sync.WaitGroup
+	if os.Getenv("VERIF_PROGRESS") != "" {
+		done := make(chan struct{})
+		defer close(done)
+		go func() {
+			for {
+				select {
+				case <-done:
+					return
+				case <-time.After(10 * time.Second):
+					mu.Lock()
+					fmt.Fprintf(os.Stderr, "[%s] %.0fs paths=%d queue=%d active=%d viol=%d inconcl=%d\n", id, time.Since(t0).Seconds(), R.Paths, len(work), active, len(R.Violations), R.Inconclusive)
+					mu.Unlock()
+				}
+			}
+		}()
+	}
 	for w := 0; w < nw; w++ {
 		wg.Add(1)
 		go func(w int) {
@@ -683,8 +755,12 @@ func (e *Engine) Explore(id string, h *ssa.Function) *ObligationResult {
 				if len(R.SamplePaths) < 5 {
 					R.SamplePaths = append(R.SamplePaths, fmt.Sprintf("status=%s decisions=%v covers=%v", res.Status, res.Decisions, keys(res.Covers)))
 				}
-				if len(res.Violations) > 0 && e.Cfg.StopAtFirstViolation {
-					stop = true
+				if e.Cfg.StopAtFirstViolation {
+					for _, v := range res.Violations {
+						if e.Cfg.IsKnown == nil || !e.Cfg.IsKnown(v) {
+							stop = true
+						}
+					}
 				}
 				if R.Paths+len(work)+len(pending) > e.Cfg.MaxPaths {
 					R.Truncated = true
